@@ -247,6 +247,50 @@ def run(chk):
                "of the climbed tree, and against the fully parenthesised form", len(vcases), len(set(vsrc)),
                exhaustive=not quick, note="all operator sequences; operand kinds sampled for 3 operators in the quick tier")
     chk.sample(dict(source=vsrc[40], grouping=vfull[40], impl=vimpl[40], expected=vwant[40]))
+    # ---- ... where the grouping matters: operands at the edges of their types, of mixed types, and doubles whose
+    # rounding depends on the order: the flat spelling and the spelling with the grammar's own parentheses must agree
+    bnd_binds = [("x", vi(-1)), ("bx", vi(I64_MAX)), ("nx", vi(I64_MIN)), ("ux", vu(U64_MAX)), ("u1", vu(1)), ("dx", vf(1e16)),
+                 ("d1", vf(1.0)), ("tb", vb(True)), ("i2", vi(2)), ("i0", vi(0)), ("sx", vs("a")), ("lx", vlist([vi(1)]))]
+    atoms = ["x", "bx", "nx", "ux", "u1", "dx", "d1", "tb", "i2", "i0", "1", "2", "9223372036854775807", "18446744073709551615u",
+             "1u", "1.0", "1e16", "0.1", "true", "0", "3", "'b'", "[2]", "4611686018427387904", "0.5", "1e308"]
+    gsrc, gfull = [], []
+    for k in (2, 3):
+        for _ in range(1500 if quick else 30000):
+            level = rng.choice([['+', '-'], ['*', '/', '%'], ['+', '-', '*', '/', '%']])
+            ops_ = [rng.choice(level) for _ in range(k)]
+            # a variable first or somewhere, then constants: the shapes a constant folder could regroup
+            kinds_ = rng.choice(["vcc", "cvc", "ccv", "vvc", "ccc", "vcv"]) + ("c" if k == 3 else "")
+            operands = []
+            for kk in kinds_[:k + 1]:
+                a = rng.choice(atoms[:10] if kk == 'v' else atoms[10:])
+                operands.append(a)
+            flat = operands[0]
+            t = operands[0]
+            # the grammar's grouping of a flat sequence of + - * / %: climb by precedence, left associative
+            tree = climb([('lit', o) for o in operands], ops_)
+
+            def show(n):
+                if n[0] == 'lit':
+                    return n[1]
+                return '(' + show(n[2]) + ' ' + n[1] + ' ' + show(n[3]) + ')'
+            for o_, a_ in zip(ops_, operands[1:]):
+                flat += ' ' + o_ + ' ' + a_
+            gsrc.append(flat)
+            gfull.append(show(tree))
+    gcases = [evalsrc_case(s_, binds=bnd_binds, ufuncs=[], std=False) for s_ in gsrc]
+    gfcases = [evalsrc_case(s_, binds=bnd_binds, ufuncs=[], std=False) for s_ in gfull]
+    gimpl, _ = tie(chk, "flat sequences over boundary operands", gcases, labels=gsrc)
+    gfimpl, _ = tie(chk, "their fully parenthesised forms", gfcases, labels=gfull)
+    for s_, f_, c, r, rf in zip(gsrc, gfull, gcases, gimpl, gfimpl):
+        if is_dead(r) or is_dead(rf):
+            continue
+        a_, b_ = split_result(r)[:2], split_result(rf)[:2]
+        if a_ != b_ and not (a_[0] == "ERR" and b_[0] == "ERR"):
+            chk.violation("adding parentheses that agree with the structure changed the result",
+                          dict(case=c, source=s_, other=f_, impl=r, other_result=rf))
+    chk.stream("arithmetic sequences of 2..3 operators over operands at the edges of int / uint / double, of mixed types, variables "
+               "and literals in every order: the flat spelling against the spelling with the grammar's own parentheses",
+               2 * len(gcases), len(set(gsrc)), exhaustive=False)
     # ---- deeper trees: every rendering gives the generator's shape and the same value -------------
     es = gen_sources(rng, 700 if quick else 12000, depth=(2, 6), use_unbound=0.02)
     pcases, pwant, plabels, groups = [], [], [], []
